@@ -38,7 +38,7 @@ fn entry_bytes() -> usize {
 /// Does this build panic on arithmetic overflow?  (The engine's modules are compiled as part of this
 /// crate, so the answer holds for the code under test.)
 fn overflow_checked() -> bool {
-    catch_unwind(|| {
+    crate::unwind_safe(|| {
         let x: u8 = std::hint::black_box(255u8);
         std::hint::black_box(x + std::hint::black_box(1u8))
     })
@@ -152,7 +152,7 @@ impl<W: Write> Runner<W> {
                 self.tt = None; // free the old table first
                 self.hw = 0;
                 self.size = *n;
-                match catch_unwind(|| Table::new(*n)) {
+                match crate::unwind_safe(|| Table::new(*n)) {
                     Ok(t) => {
                         self.tt = Some(t);
                         Ok(())
